@@ -74,6 +74,16 @@ Theorem C29_like_without_wildcards_iff_compare_equal_partial :
 Proof. exact like_literal_iff_compare_eq. Qed.
 Print Assumptions C29_like_without_wildcards_iff_compare_equal_partial.
 
+(* patterns WITH wildcards: the backtracking machine never accepts a string outside the declarative meaning of the
+   pattern ('%' any sequence of runes, '_' one rune, a literal one rune of equal weight), whatever the weights and the
+   fuel.  _partial: the converse (every string the pattern denotes is accepted) is NOT proved; it is checked on the
+   implementation against an independent matcher, exhaustively for all patterns and strings up to length 5 over a
+   two-letter alphabet plus generated cases under every collation. *)
+Theorem C29_like_match_sound_partial :
+  forall fuel nodes s, like_match fuel nodes s = Some true -> dlike nodes s = true.
+Proof. exact like_match_sound. Qed.
+Print Assumptions C29_like_match_sound_partial.
+
 Example C29_like_nonvacuous :
   (like_match 100 [NRune 72; NRune (-1); NRune 76; NAny; NRune 79] (map Good [72; 69; 76; 76; 79]) = Some true /\
    like_match 100 [NAny; NRune 66; NAny; NRune 67; NAny] (map Good [65; 88; 66; 88; 67]) = Some true /\
